@@ -577,8 +577,17 @@ def ho2(m, run):
         sup = None
         for n in walk_no_nested(fi.node):
             if isinstance(n, ast.If) and isinstance(n.test, ast.BoolOp) and isinstance(n.test.op, ast.Or):
-                cs = [cmp_norm(v, knot, kv) for v in n.test.values]
-                if all(x is not None for x in cs) and len(cs) == 2:
+                def core(v):
+                    # `u >= U[i+p+1] and not <end-of-domain exception>`: the comparison is the core, the exception is decided by OT4
+                    if isinstance(v, ast.BoolOp) and isinstance(v.op, ast.And):
+                        for w in v.values:
+                            c_ = cmp_norm(w, knot, kv)
+                            if c_ is not None:
+                                return c_
+                        return None
+                    return cmp_norm(v, knot, kv)
+                cs = [core(v) for v in n.test.values]
+                if all(x is not None for x in cs) and len(cs) == 2 and not any(x[0] in (ast.Eq, ast.NotEq) for x in cs):
                     sup = (n, cs)
         oks = False
         if sup is not None:
